@@ -123,7 +123,7 @@ def run(res, tier, seed):
         for A in tabs1:
             for B in (small_b if tier == 'thorough' else rnd.sample(small_b, 40)):
                 cases.append({'q': q, 'A': A, 'B': B})
-    cases += gen_random(rnd, 6000 if tier == 'quick' else 120000)
+    cases += gen_random(rnd, 12000 if tier == 'quick' else 120000)
     for c in cases:
         if nontrivial(c):
             res.nontrivial.add(json.dumps([c['q'], c['A'], c['B']], sort_keys=True))
